@@ -500,10 +500,10 @@ Definition no_errored (st : step F) : Prop :=
 (** action_counts_are_counts: with an unfiltered collector that selects the
     particle and action ids, the ActionDiagnostic counter of (particle, action)
     after any stepping sequence is the number of delivered step records with
-    these ids.  [skip] = the host ActionSequence's single-slot shortcut applies
-    to the diagnostic (it does as long as its order is [post]): then the
-    statement needs more than one track slot (see
-    [action_counts_single_slot_refuted]). *)
+    these ids.  [skip = false] is the current code (diagnostic at [user_post]):
+    the statement holds for every slot count.  [skip = true] is the old variant
+    (diagnostic at [post], hit by the host single-slot shortcut): it needs more
+    than one track slot (see [action_counts_single_slot_refuted]). *)
 Theorem action_counts_are_counts_gen : forall skip p steps rows0 i j,
   has_det p = false -> s_particle (p_sel p) = true -> s_action (p_sel p) = true ->
   skip = false \/ length rows0 <> 1%nat ->
@@ -759,7 +759,7 @@ Qed.
 End Calo.
 Arguments det_is {F}.
 
-(** ** The single-slot defect of ActionDiagnostic (finding) *)
+(** ** The single-slot defect of the OLD ActionDiagnostic (order [post]; repaired in the repo) *)
 Section Refuted.
 Local Open Scope Z_scope.
 
